@@ -362,6 +362,16 @@ pub fn draw(seed: u64, i: u64, tasks: &[Task], thorough: bool) -> Scenario {
         let j = rng.below(k as u64 + 1) as usize;
         args.swap(k, j);
     }
+    // the same program named twice: "the first in argument order ... and the next" is a statement about the list
+    // of arguments, so a repeated path counts twice (only for programs without a .spec, where both roles are .lp roles)
+    if !has_spec && rng.pct(8) {
+        let lps: Vec<String> = args.iter().filter(|a| files.iter().any(|f: &FileEntry| &f.path == *a && f.path.ends_with(".lp") && f.meant != "junk")).cloned().collect();
+        if !lps.is_empty() {
+            let dup = rng.pick(&lps).clone();
+            let at = rng.below(args.len() as u64 + 1) as usize;
+            args.insert(at, dup);
+        }
+    }
     // spellings of the same path; sometimes the whole scenario root is the only argument
     if rng.pct(6) {
         args = vec![rng.pick(&[".", "./", "././"]).to_string()];
